@@ -65,6 +65,7 @@ REVERT_EXPECT: Dict[str, List[Tuple[str, str]]] = {
     "9d59313": [("C03", "K8.spin-ordering")],
     "27c3e92": [("C16", "K2.terms-copied"), ("C14", "K2.terms-copied")],
     "a741347": [("C01", "K7.initial-state"), ("C02", "K7.initial-state")],
+    "eb2afe1": [("C01", "K6.initial-state-shapes")],
 }
 
 
